@@ -487,9 +487,13 @@ impl<E: Effect, R: CommandReceiver<E>, S: EventSender<E>> Worker<E, R, S> {
                 .executor
                 .get_process_info(*target)
                 .map(|info| info.status);
+            // A failed process is finished too: its error belongs in this answer, not in a
+            // separate report that arrives after the select has looked at its sources.
             let is_completed = matches!(
                 target_status,
-                Some(ProcessStatus::Completed) | Some(ProcessStatus::Sleeping)
+                Some(ProcessStatus::Completed)
+                    | Some(ProcessStatus::Sleeping)
+                    | Some(ProcessStatus::Failed)
             );
 
             if is_completed {
@@ -575,11 +579,8 @@ impl<E: Effect, R: CommandReceiver<E>, S: EventSender<E>> Worker<E, R, S> {
                     .map_err(|e| EnvironmentError::HeapData(format!("{:?}", e)))?;
             }
             Err(error) => {
-                // Set the process result to the error and clear frames to complete it
-                if let Some(process) = self.executor.get_process_mut(awaiter) {
-                    process.result = Some(Err(error));
-                    process.frames.clear(); // Complete the process
-                }
+                // The awaiter's select applies the failure when it reaches that source
+                self.executor.notify_failure(awaiter, awaited, error);
             }
         }
         Ok(())
